@@ -169,7 +169,7 @@ def call_watched(fn_name, desc, arrays, kw, backend=None):
     except BaseException as e:  # noqa: BLE001
         msg = str(e)
         quoted = re.findall(r'Expression: "([^"\n]*)"', msg)
-        return {"outcome": common.classify_exc(e), "site": common.exc_site(e), "message": msg[:200], "computations": Watched.count,
+        return {"outcome": common.classify_exc(e), "site": common.exc_site(e), "message": msg[:200], "full_message": msg[-400:], "computations": Watched.count,
                 # solve_* append " ->" to the caller's text before parsing: a quotation that contains the caller's string is accepted
                 "quotes_foreign_text": isinstance(desc, str) and bool(quoted) and not any(desc.strip() in q for q in quoted), "quoted": quoted[:2]}
 
@@ -187,7 +187,8 @@ def _work(item):
         if must_fail:
             out.append(({"kind": "ill_formed_call_returns_value", "corruption": what, "fn": fn}, rec))
     elif o == "CallOperationError":
-        out.append(({"kind": "rejected_only_at_run_time", "corruption": what, "fn": fn}, {**rec, "message": r.get("message")}))
+        out.append(({"kind": "rejected_only_at_run_time", "corruption": what, "fn": fn,
+                     "runtime_error": "read_only_array" if "read-only" in (r.get("full_message") or "") else "other"}, {**rec, "message": r.get("message")}))
     elif o == "SyntaxError" and r.get("quotes_foreign_text"):
         out.append(({"kind": "syntax_error_about_text_the_caller_did_not_write", "has_brace": any("{" in q for q in r["quoted"]),
                      "nested_dots": any("......" in q for q in r["quoted"]) and not any("{" in q for q in r["quoted"])},
